@@ -115,80 +115,3 @@ Lemma g6_surface : forall equiv sites, evalR (env_of [equiv; sites]) g6_lg = log
   /\ g6_lg_vars = ["equiv"; "s_x[i]->alk"] /\ g6_lg_conds = ["s_x[i]->alk > 0"].
 Proof. intros. repeat split; try reflexivity. Qed.
 
-(* ---- dg = moles * d(ln gamma)/d mu   (ln gamma = ln 10 * log gamma); these feed the Jacobian *)
-Ltac dsolve :=
-  auto_derive;
-  try (field; repeat split; lra);
-  try (repeat split; first [assumption | lra | exact Logic.I]).
-
-Lemma g0_dg_is_derivative : forall b I moles,
-  is_derive (fun x => moles * (ln 10 * neutral_lin b x)) I (evalR (env_of [b; ln 10; moles]) g0_dg).
-Proof.
-  intros b I moles. unfold g0_dg, neutral_lin. ev. dsolve.
-Qed.
-
-Lemma g1_dg_is_derivative : forall z A I moles, 0 < I ->
-  is_derive (fun x => moles * (ln 10 * davies A z x)) I (evalR (env_of [z; A; I; ln 10; moles]) g1_dg).
-Proof.
-  intros z A I moles HI. unfold g1_dg, davies. ev.
-  pose proof (sqrt_lt_R0 I HI) as Hs. dsolve.
-Qed.
-
-Lemma g2_dg_is_derivative : forall z A B a0 b I moles, 0 < I -> 0 <= a0 -> 0 <= B ->
-  is_derive (fun x => moles * (ln 10 * ext_dh A B z a0 b x)) I
-            (evalR (env_of [z; A; B; a0; b; I; ln 10; moles]) g2_dg).
-Proof.
-  intros z A B a0 b I moles HI Ha HB. unfold g2_dg, ext_dh. ev.
-  pose proof (sqrt_lt_R0 I HI) as Hs. pose proof (dh_den_pos a0 B I Ha HB) as Hd. dsolve.
-Qed.
-
-Lemma g7_dg_is_derivative : forall z A B bdot a0 I moles, 0 < I -> 0 <= a0 -> 0 <= B ->
-  is_derive (fun x => moles * (ln 10 * bdot_dh A B bdot z a0 x)) I
-            (evalR (env_of [z; A; B; bdot; a0; I; ln 10; moles]) g7_dg).
-Proof.
-  intros z A B bdot a0 I moles HI Ha HB. unfold g7_dg, bdot_dh, ext_dh. ev.
-  pose proof (sqrt_lt_R0 I HI) as Hs. pose proof (dh_den_pos a0 B I Ha HB) as Hd. dsolve.
-Qed.
-
-Lemma g8_dg_is_derivative : forall c0 c1 c2 c3 c4 T I moles, 0 <= I -> T <> 0 ->
-  is_derive (fun x => moles * (ln 10 * co2_drummond c0 c1 c2 c3 c4 T x)) I
-            (evalR (env_of [c0; c1; c2; c3; c4; T; I; moles]) g8_dg).
-Proof.
-  intros c0 c1 c2 c3 c4 T I moles HI HT. unfold g8_dg, co2_drummond. ev.
-  pose proof ln10_pos. dsolve.
-Qed.
-Lemma dg_table :
-  g0_dg_vars = ["s_x[i]->dhb"; "LOG_10"; "s_x[i]->moles"] /\
-  g1_dg_vars = ["s_x[i]->z"; "DH_A"; "mu"; "LOG_10"; "s_x[i]->moles"] /\
-  g2_dg_vars = ["s_x[i]->z"; "DH_A"; "DH_B"; "s_x[i]->dha"; "s_x[i]->dhb"; "mu"; "LOG_10"; "s_x[i]->moles"] /\
-  g7_dg_vars = ["s_x[i]->z"; "a_llnl"; "b_llnl"; "bdot_llnl"; "s_x[i]->dha"; "mu"; "LOG_10"; "s_x[i]->moles"] /\
-  g8_dg_vars = ["llnl_co2_coefs[0]"; "llnl_co2_coefs[1]"; "llnl_co2_coefs[2]"; "llnl_co2_coefs[3]"; "llnl_co2_coefs[4]"; "tk_x"; "mu"; "s_x[i]->moles"].
-Proof. repeat split; reflexivity. Qed.
-
-(* ---- LLNL temperature interpolation: linear between the two bracketing grid temperatures *)
-Lemma llnl_interpolation : forall t t0 t1 p0 p1, t0 <> t1 ->
-  let f := evalR (env_of [t; t0; t1]) llnl_f in
-  evalR (env_of [f; p0; p1]) llnl_a = p0 + (p1 - p0) * (t - t0) / (t1 - t0) /\
-  evalR (env_of [f; p0; p1]) llnl_b = p0 + (p1 - p0) * (t - t0) / (t1 - t0) /\
-  evalR (env_of [f; p0; p1]) llnl_bdot = p0 + (p1 - p0) * (t - t0) / (t1 - t0).
-Proof.
-  intros t t0 t1 p0 p1 Hne f. unfold f, llnl_f, llnl_a, llnl_b, llnl_bdot.
-  repeat split; ev; field; lra.
-Qed.
-Lemma llnl_table :
-  llnl_f_vars = ["tc_x"; "llnl_temp[ifirst]"; "llnl_temp[ilast]"] /\
-  llnl_a_vars = ["f"; "llnl_adh[ifirst]"; "llnl_adh[ilast]"] /\
-  llnl_b_vars = ["f"; "llnl_bdh[ifirst]"; "llnl_bdh[ilast]"] /\
-  llnl_bdot_vars = ["f"; "llnl_bdot[ifirst]"; "llnl_bdot[ilast]"].
-Proof. repeat split; reflexivity. Qed.
-
-(* ---- Pitzer and SIT: the water activity is exp(-M_w * phi * sum m) with M_w = 1/55.50837 kg/mol *)
-Lemma aw_is_water_activity : forall osum phi,
-  evalR (env_of [osum; phi]) pitzer_AW = water_activity phi osum /\
-  evalR (env_of [osum; phi]) sit_AW = water_activity phi osum.
-Proof.
-  intros. unfold pitzer_AW, sit_AW, water_activity, M_w. split; ev; f_equal; field.
-Qed.
-Lemma aw_table : pitzer_AW_vars = ["OSUM"; "COSMOT"] /\ sit_AW_vars = ["OSUM"; "COSMOT"] /\
-  pitzer_AW_conds = [] /\ sit_AW_conds = [].
-Proof. repeat split; reflexivity. Qed.
